@@ -118,6 +118,13 @@ impl FileDesc {
             None => default_oti.clone(),
         };
 
+        if oti.fec_encoding_id == oti::FECEncodingID::ReedSolomonGF2M {
+            // no encoder exists (Block::new_from_buffer), Oti::max_source_blocks_number is todo!()
+            return Err(FluteError::new(
+                "FEC Reed Solomon GF(2^m) is not implemented",
+            ));
+        }
+
         let max_transfer_length = oti.max_transfer_length();
         if object.transfer_length as usize > max_transfer_length {
             return Err(FluteError::new(format!(
